@@ -580,6 +580,7 @@ def check_c09(v: Verdict, t1_summary, n_scen, n_inst):
                             {"lane": "C09/namedtuple", "dv": dv, "instance": repr(inst), "unstructured": out})
 
     c09_key_modes_battery(v, hist)
+    omit_default_battery(v, hist)
     c09_namedtuple_battery(v, hist, rng, max(40, n_scen))
     hist["_intern"] = intern
     td_lane(v, t1_summary, "C09", max(10, n_scen // 2), 4, cases, meta, hist)
@@ -835,6 +836,10 @@ def key_modes_pairwise(v, prop, hist):
     hist["key_mode_pairwise_cases"] = n
 
 
+def _parse_port(v):
+    return int(str(v).split("/")[0])
+
+
 def key_modes_classes(v, hist):
     """systematic, for C06: one attribute x {required, __init__ argument with default} x {own name, private name, explicit alias}
     x {value from the hook of its type, from its attrs field converter with prefer_attrib_converters, untyped} x both modes:
@@ -847,7 +852,7 @@ def key_modes_classes(v, hist):
         fname = "_tok" if keymode == "private" else "tok"
         fkw = {"type": int} if handler != "untyped" else {}
         if handler.startswith("field_converter"):
-            fkw["converter"] = int
+            fkw["converter"] = _parse_port        # accepts "7/tcp", which int() -- the hook of the declared type -- rejects
         if kind != "required":
             fkw["default"] = 5
         if keymode == "alias_explicit":
@@ -856,7 +861,8 @@ def key_modes_classes(v, hist):
         kw = {"detailed_validation": dv, "prefer_attrib_converters": handler == "field_converter_preferred"}
         a, b = Converter(**kw), BaseConverter(**kw)
         others = sorted({"tok", "_tok", "token", "zz"} - {fname})
-        payloads = [{"lead": 1, fname: 9}, {"lead": 1, fname: 9, "tail": "u"}, {"lead": 1}, {"lead": 1, fname: "7"}, {"lead": 1, fname: "bad"}, {fname: 9}] + \
+        payloads = [{"lead": 1, fname: 9}, {"lead": 1, fname: 9, "tail": "u"}, {"lead": 1}, {"lead": 1, fname: "7"}, {"lead": 1, fname: "7/tcp"}, {"lead": "3", fname: "7/tcp"},
+                    {"lead": 1, fname: "bad"}, {fname: 9}] + \
                    [{"lead": 1, fname: 9, o: 3} for o in others] + [{"lead": 1, o: 3} for o in others]
         for p in payloads:
             n += 1
@@ -1148,3 +1154,62 @@ def td_lane(v: Verdict, t1_summary, prop, n_scen, n_payloads, cases, meta, hist)
                             continue
                         v.violation("TypedDict structure hook with the same customisation does not restore the handled keys",
                                     {"lane": "TPL/C09/typeddict", "typeddict": sc.describe(), "instance": inst, "unstructured": d, "dv": dv, "back": back})
+
+
+def omit_default_battery(v, hist):
+    """systematic, for C09: omit_if_default omits an attribute exactly when its value EQUALS the default (Python ==) -- not when it is
+    merely falsy, empty or of the default's class.  Defaults: plain values and Factory(<builtin>) / Factory(lambda) / takes_self;
+    values: the default itself, equal-but-other-class values, falsy values that are not equal, non-empty ones; switched on
+    converter-wide, by the generator flag and per attribute; the emitted key set and the round trip are checked."""
+    import collections
+    import attrs
+    from cattrs.gen import override
+    n = 0
+    defaults = [("Factory(list)", lambda: attrs.Factory(list), []), ("Factory(dict)", lambda: attrs.Factory(dict), {}), ("Factory(set)", lambda: attrs.Factory(set), set()),
+                ("Factory(tuple)", lambda: attrs.Factory(tuple), ()), ("Factory(frozenset)", lambda: attrs.Factory(frozenset), frozenset()),
+                ("Factory(lambda: [])", lambda: attrs.Factory(lambda: []), []), ("Factory(lambda self: [], takes_self=True)", lambda: attrs.Factory(lambda self: [], takes_self=True), []),
+                ("0", lambda: 0, 0), ("''", lambda: "", ""), ("None", lambda: None, None), ("False", lambda: False, False), ("5", lambda: 5, 5)]
+    values = [[], {}, set(), (), frozenset(), None, 0, "", False, 0.0, collections.deque(), [0], {"k": 1}, (1,), 5, "s", True]
+    for dname, mk, dval in defaults:
+        for how in ("converter", "flag", "override"):
+            for dv in (True, False):
+                cl = attrs.make_class("OD", {"lead": attrs.field(type=int), "x": attrs.field(default=mk())})
+                conv = Converter(detailed_validation=dv, omit_if_default=(how == "converter"))
+                if how == "converter":
+                    un = conv.get_unstructure_hook(cl)
+                elif how == "flag":
+                    un = make_dict_unstructure_fn(cl, conv, _cattrs_omit_if_default=True)
+                else:
+                    un = make_dict_unstructure_fn(cl, conv, x=override(omit_if_default=True))
+                st = make_dict_structure_fn(cl, conv, _cattrs_detailed_validation=dv)
+                for val in values:
+                    n += 1
+                    desc = {"lane": "TPL/C09 omit_if_default", "default": dname, "switched_on_by": how, "detailed_validation": dv, "value": repr(val)}
+                    v.count(repr(desc), True)
+                    try:
+                        inst = cl(1, val)
+                        d = un(inst)
+                    except Exception as e:
+                        v.violation("customised unstructure hook failed (omit_if_default)", {**desc, "error": repr(e)})
+                        continue
+                    try:
+                        equal = bool(val == dval)
+                    except Exception:
+                        continue
+                    want_keys = {"lead"} if equal else {"lead", "x"}
+                    if set(d) != want_keys:
+                        v.violation("omit_if_default: the attribute is not omitted exactly when its value equals the default",
+                                    {**desc, "unstructured": repr(d), "value_equals_default": equal})
+                        continue
+                    try:
+                        back = st(dict(d), cl)
+                    except Exception as e:
+                        v.violation("structure hook rejected what the unstructure hook with omit_if_default emitted", {**desc, "unstructured": repr(d), "error": repr(e)})
+                        continue
+                    # (an untyped attribute is unstructured by the runtime class of its value: tuples / deques become lists, sets stay
+                    # sets ...; the round trip is judged where the unstructured form is the value itself, or was omitted as the default)
+                    if "x" in d and not (type(d["x"]) is type(val) and d["x"] == val):
+                        continue
+                    if not (back.x == val and back.lead == 1):
+                        v.violation("omit_if_default: the round trip does not restore the attribute", {**desc, "unstructured": repr(d), "restored": repr(back)})
+    hist["omit_default_cases"] = n
